@@ -42,14 +42,15 @@ def c15_sig(line):
 ID = "C15"
 CFG = dict(
     propfile="Properties/C15.v",
-    coq_deps=["Model/Relay", "Proofs/RelayP", "Check/C15", "Properties/C15"],
+    coq_deps=["Model/Relay", "Proofs/RelayP", "Check/C15", "Proofs/RelayCheckP", "Properties/C15"],
     ocaml="c15",
     race=True,
     casesv=c15_casesv,
     rule=("every handler script of <= 3 actions over {header-map only, WriteHeader 200/404/500/599, body by Write / io.Copy(strings.Reader) / "
           "io.Copy(file, 9 KiB)} optionally ended by a panic with one of 15 value kinds (string, error, int, struct, slice, map, nil, typed nil "
           "pointer whose Error() dereferences, non-nil value whose Error() / String() / MarshalText() / MarshalJSON() panics, errors wrapping "
-          "http.ErrAbortHandler via %w and errors.Join, typed nil error whose Unwrap() panics) x Nano/Text/JSON handler x real HTTP server and direct ServeHTTP at Info; "
+          "http.ErrAbortHandler via %w and errors.Join, typed nil error whose Unwrap() panics) x Nano/Text/JSON handler at Info, through a real HTTP server and by direct ServeHTTP (quick: both modes on one handler "
+          "per script, rotating, one mode on the other two; thorough: both on all); "
           "scripts of <= 1 action (+panic) at thresholds Debug/Warn/Error/Fatal; seeded random scripts of <= 9 actions with any code "
           "200..599 incl. repeated WriteHeader; matched and unmatched routes; 1..64 requests in flight per batch; "
           "non-trivial = distinct (mode, handler, threshold, route, method, script)"),
@@ -72,7 +73,7 @@ CFG = dict(
 )
 CFG["manifest"] = dict(
     text=("Proof: Coq theorems C15_relay / C15_same_id / C15_pairing / C15_above_info / C15_above_error / C15_abort_handler / "
-          "C15_needs_total_render hold for every handler script, every panic value other than http.ErrAbortHandler, every request and "
+          "C15_needs_total_render / C15_check_accepts_model hold for every handler script, every panic value other than http.ErrAbortHandler, every request and "
           "every interleaving of the record streams of requests with distinct ids, under the explicit assumption that the log handler "
           "renders the panic value without panicking. Tie: the real Mux + Logger.Relay with the three handlers is driven through a real "
           "HTTP server and direct ServeHTTP calls under the race detector with scripted handlers (15 kinds of panic values incl. wrapped "
